@@ -292,7 +292,9 @@ def run_one(ch):
         res.violate("C18/decoy-contacted", "the proxy connected to a host that is not its upstream",
                     **ctx)
     attempts = [c for c in net.connect_log if c[1] == UP]
-    if len(attempts) != 1:
+    # "relayed, never followed": after an upstream redirect (or any complete answer)
+    # no second upstream connection; retrying a failed connect is not forbidden
+    if len(attempts) != 1 and (up["must"] == "verbatim" or len(attempts) == 0 or len(attempts) > 3):
         res.violate(f"C18/upstream-connection-count/{site}",
                     f"{len(attempts)} connection attempts to the upstream for one request "
                     f"(redirects must be relayed, never followed; no retries)", **ctx)
